@@ -17,4 +17,4 @@ for C in $CHECKS; do
   cp "$D/check.out" "$SRC/check_$C.out"
 done
 echo "$S demo_clean=$RC_CLEAN demo_changed=$RC_MUT checks:$RES" | tee "$SRC/verify.txt"
-rm -rf "$V/replays"
+[ -n "$SEED_KEEP_REPLAYS" ] || rm -rf "$V/replays"
